@@ -578,6 +578,8 @@ def check_fit(item):
             err = max(abs(a - b) / abs(a) for a, b in zip(tv, fitted))
             best = min(best, err)
         worst("recovery_param_rel_err:" + tag, best)
+        if high_z and not chi <= CHI_TOL:
+            bump("limit-resolution_items_above_CHI_TOL")
         if not chi <= CHI_TOL:
             bad("C12/recovery-limit-range-resolution" if high_z else f"C12/recovery-chisqr:{item['shape']}", f"pseudo chi-squared {chi:.3g} > {CHI_TOL:g} (winner {result.method}/{result.weight}, worst parameter error {best:.3g})")
         if chi <= CONV_CHI and not best <= PAR_TOL:
